@@ -1,7 +1,8 @@
 (** The laws of the signature for the real part models (Model/FontReal.v). *)
 Require Import Norad.Model.GlifSpec Norad.Model.GlifDen Norad.Model.GlifEncode.
 Require Import Norad.Proofs.GlifParseP Norad.Proofs.GlifEncodeP Norad.Proofs.GlifRoundtripP.
-Require Import Norad.Model.FontRT Norad.Model.FontReal Norad.Proofs.FontRTP.
+Require Import Norad.Model.FontRT Norad.Model.FontRealInfo Norad.Model.FontReal Norad.Proofs.FontRTP
+               Norad.Proofs.FontRealInfoP.
 Open Scope N_scope.
 
 Section RealP.
@@ -10,6 +11,8 @@ Variables ff ff3 : fl -> str.
 Variable fi : Z -> str.
 Variable fh : N -> str.
 Variable B : sig.
+Variable PG : part (T_content B) (T_opts B) GR.groups.
+Variable PK : part (T_content B) (T_opts B) GR.kerning.
 Hypothesis L1 : L1_glif pf ff ff3 fh.
 
 Local Notation close3 := (fun x y : fl => pf (chan ff3 x) = Some y).
@@ -112,20 +115,33 @@ Qed.
 
 (** the laws of the signature for [real_sig]: the glif laws are proved, the others are those of the
     base signature *)
-Theorem real_sig_ok : base_laws B -> sig_ok (real_sig pf ff ff3 fi fh B).
+Theorem real_sig_ok : base_laws B PG PK -> sig_ok (real_sig pf ff ff3 fi fh B PG PK).
 Proof.
-  intros H. destruct H. constructor; simpl in *;
+  intros H. pose proof H as HH. destruct H. constructor; simpl in *;
     try (apply lift_ok; assumption); try assumption.
+  - (* the real font-info codec *) apply info_real_ok. reflexivity.
   - exact glif_real_ok.
+  - (* info_eq_ids *) intros a b ->. destruct (snd b) as [l|]; simpl; [|exact I]. apply Forall2_refl_in. reflexivity.
+  - (* irest_dflt_spec *) exact info_is_none_spec.
+  - (* info_dflt_wf *)
+    unfold wf_sinfo. simpl. split; [reflexivity|]. split; [|split; vm_compute; reflexivity].
+    unfold FI.info_wt. simpl. repeat split; intros; discriminate.
+  - (* info_dflt_ok *) vm_compute. reflexivity.
+  - (* groups_empty_spec *) intros [|x g] Hg; [apply (peq_refl _ b_groups)|discriminate].
+  - (* groups_dflt_wf *) split; [assumption|reflexivity].
+  - (* kerning_empty_spec *) intros [|x k] Hk; [apply (peq_refl _ b_kerning)|discriminate].
+  - (* groups_ok_eq *) intros a b Hab. rewrite (b_groups_exact a b Hab). reflexivity.
+  - (* info_ok_stripped *) intros a b Hs. unfold info_ok_real. unfold stripped in Hs. simpl in Hs.
+    unfold strip_g in Hs. inversion Hs as [[H1 H2]]. rewrite H1, H2. reflexivity.
   - intros [n w h cps note img gs as_ ks cs lib]. reflexivity.
   - intros n a b ->. reflexivity.
   - intros n g. reflexivity.
 Qed.
 
 (** ** the font-level theorems for the real signature *)
-Local Notation RS := (real_sig pf ff ff3 fi fh B).
+Local Notation RS := (real_sig pf ff ff3 fi fh B PG PK).
 
-Theorem roundtrip_real : base_laws B -> forall o (f : font RS),
+Theorem roundtrip_real : base_laws B PG PK -> forall o (f : font RS),
   font_valid RS f ->
   exists t, save RS o f = Ok t /\ spec_write RS norad_choices o f = Some t /\
             exists f', load RS t = Ok f' /\ font_equiv RS f f'.
@@ -146,12 +162,12 @@ Proof.
   simpl. f_equal; [apply glyph_entries_exact; exact Hg|exact IH].
 Qed.
 
-Theorem reads_spec_real : base_laws B -> forall c o (f : font RS),
+Theorem reads_spec_real : base_laws B PG PK -> forall c o (f : font RS),
   font_valid RS f ->
   exists t, spec_write RS c o f = Some t /\ exists f', load RS t = Ok f' /\ font_equiv RS f f'.
 Proof. intros HB. exact (load_spec_write RS (real_sig_ok HB)). Qed.
 
-Theorem spec_reader_real : base_laws B -> forall c o (f : font RS),
+Theorem spec_reader_real : base_laws B PG PK -> forall c o (f : font RS),
   font_valid RS f ->
   exists t, spec_write RS c o f = Some t /\ exists f', spec_read RS t = Some f' /\ font_equiv RS f f'.
 Proof. intros HB. exact (spec_read_spec_write RS (real_sig_ok HB)). Qed.
@@ -170,7 +186,7 @@ Lemma load_glyph_parsed : forall (d : ldir RS) ce e, load_glyph RS d ce = Ok e -
 Proof.
   intros d ce e H. unfold load_glyph in H.
   destruct (alookup (snd ce) (ld_glifs RS d)) as [c|]; [|discriminate].
-  simpl in H. destruct c as [c|doc]; [discriminate|].
+  simpl in H. destruct c as [c|doc|r]; try discriminate.
   destruct (parse_glif pf doc) as [g| |] eqn:Ep; try discriminate. inversion H; subst e.
   destruct (parse_rules pf doc g Ep) as [R1 R2]. exists g. simpl. auto.
 Qed.
@@ -223,12 +239,48 @@ Qed.
 
 (** every lawful signature gives the base laws (so the hypothesis [base_laws] is satisfiable whenever
     [sig_ok] is) *)
-Theorem base_laws_of_sig_ok : forall B, sig_ok B -> base_laws B.
+
+(** ** the remaining hypotheses are jointly satisfiable: the toy base with groups / kerning codecs
+    that write the real maps as nested dictionaries *)
+Require Import Norad.Model.FontToy Norad.Proofs.FontToyP.
+
+Definition toy_enc_groups (g : GR.groups) : tdict :=
+  map (fun e => (fst e, TDict (map (fun n => (n, TLeaf 0)) (snd e)))) g.
+Definition toy_dec_groups (d : tdict) : option GR.groups :=
+  omapM (fun e : str * tpv => match snd e with TDict l => Some (fst e, map fst l) | TLeaf _ => None end) d.
+Definition toy_enc_kerning (k : GR.kerning) : tdict :=
+  map (fun e => (fst e, TDict (map (fun p => (fst p, TLeaf (snd p))) (snd e)))) k.
+Definition toy_dec_kerning (d : tdict) : option GR.kerning :=
+  omapM (fun e : str * tpv =>
+           match snd e with
+           | TDict l => option_map (fun row => (fst e, row))
+                          (omapM (fun p : str * tpv => match snd p with TLeaf n => Some (fst p, n) | TDict _ => None end) l)
+           | TLeaf _ => None
+           end) d.
+Definition toy_PG : part tcontent N GR.groups :=
+  mkpart (fun g => CDict (toy_enc_groups g)) (fun c => match c with CDict d => toy_dec_groups d | _ => None end) eq.
+Definition toy_PK : part tcontent N GR.kerning :=
+  mkpart (fun k => CDict (toy_enc_kerning k)) (fun c => match c with CDict d => toy_dec_kerning d | _ => None end) eq.
+
+Lemma toy_groups_rt : forall g, toy_dec_groups (toy_enc_groups g) = Some g.
 Proof.
-  intros B H. destruct H. unfold base_laws. constructor; simpl in *; try assumption.
-  - constructor; simpl; try congruence; try reflexivity; intros; try contradiction; try discriminate.
-  - reflexivity.
-  - intros n a b H. reflexivity.
-  - reflexivity.
+  induction g as [|[n ms] g IH]; [reflexivity|]. unfold toy_dec_groups, toy_enc_groups in *. simpl.
+  rewrite IH. simpl. rewrite map_map. simpl. rewrite map_id. reflexivity.
+Qed.
+Lemma toy_row_rt : forall row : list (str * N),
+  omapM (fun p : str * tpv => match snd p with TLeaf n => Some (fst p, n) | TDict _ => None end)
+        (map (fun p : str * N => (fst p, TLeaf (snd p))) row) = Some row.
+Proof. induction row as [|[a v] r IH]; [reflexivity|]. simpl. rewrite IH. reflexivity. Qed.
+Lemma toy_kerning_rt : forall k, toy_dec_kerning (toy_enc_kerning k) = Some k.
+Proof.
+  induction k as [|[n row] k IH]; [reflexivity|]. unfold toy_dec_kerning, toy_enc_kerning in *. simpl.
+  rewrite toy_row_rt. simpl. rewrite IH. reflexivity.
 Qed.
 
+Theorem toy_base_laws : base_laws toy_sig toy_PG toy_PK.
+Proof.
+  pose proof toy_ok as H. destruct H. constructor; try assumption.
+  - apply mkpart_ok; try congruence; try reflexivity. intros. apply toy_groups_rt.
+  - apply mkpart_ok; try congruence; try reflexivity. intros. apply toy_kerning_rt.
+  - intros a b H. exact H.
+Qed.
